@@ -383,7 +383,7 @@ func c05Exec(cs fw.Case) *fw.Fail {
 			target.Elem().Set(pre)
 		}
 		var out, log bytes.Buffer
-		err := bcl.Unmarshal([]byte(src.String()), target.Interface(), bcl.OptOutput(&out), bcl.OptLogger(&log))
+		err := impl.Unmarshal(src.String(), target.Interface(), bcl.OptOutput(&out), bcl.OptLogger(&log))
 		if err != nil {
 			return fw.Failf("Unmarshal succeeds for\n"+src.String(), "error: %v (log %q)", err, log.String())
 		}
@@ -445,7 +445,7 @@ func c05Exec(cs fw.Case) *fw.Fail {
 				src2.WriteString("}\n")
 			}
 			fmt.Fprintf(&src2, "bind %s:all -> slice\n", c.BlockTy)
-			if err := bcl.Unmarshal([]byte(src2.String()), target.Interface(), bcl.OptOutput(&out), bcl.OptLogger(&log)); err != nil {
+			if err := impl.Unmarshal(src2.String(), target.Interface(), bcl.OptOutput(&out), bcl.OptLogger(&log)); err != nil {
 				return fw.Failf("second Unmarshal into the same slice succeeds for\n"+src2.String(), "error: %v", err)
 			}
 			if w, g := canonValue(want2.Elem()), canonValue(target.Elem()); w != g {
@@ -734,7 +734,7 @@ var subC05Local = &fw.Sub{Name: "c05.localtypes", New: func() fw.Case { return &
 		for _, k := range c.Order {
 			t := c15RecTargets[k]()
 			var out, log bytes.Buffer
-			if err := bcl.Unmarshal([]byte(c05RecTexts[k].src), t, bcl.OptOutput(&out), bcl.OptLogger(&log)); err != nil {
+			if err := impl.Unmarshal(c05RecTexts[k].src, t, bcl.OptOutput(&out), bcl.OptLogger(&log)); err != nil {
 				return fw.Failf("Unmarshal into local type #"+fmt.Sprint(k)+" succeeds (order "+fmt.Sprint(c.Order)+")", "%v", err)
 			}
 			if g := canonValue(reflect.ValueOf(t).Elem()); g != c05RecTexts[k].want {
@@ -775,7 +775,7 @@ var subC05Big = &fw.Sub{Name: "c05.bigslice", New: func() fw.Case { return &c05B
 		src.WriteString("bind big_rec:all -> slice\n")
 		var got []BigRec
 		var out, log bytes.Buffer
-		if err := bcl.Unmarshal([]byte(src.String()), &got, bcl.OptOutput(&out), bcl.OptLogger(&log)); err != nil {
+		if err := impl.Unmarshal(src.String(), &got, bcl.OptOutput(&out), bcl.OptLogger(&log)); err != nil {
 			return fw.Failf(fmt.Sprintf("Unmarshal of %d blocks succeeds", c.N), "%v (log %q)", err, fw.Trunc(log.String(), 200))
 		}
 		if !reflect.DeepEqual(got, want) {
